@@ -257,6 +257,11 @@ def table_update(R, cfg, b, old_tok, new_tok, atomic=False):
                     # one atomic maximum: the previous id is returned (what is stored is std's business, R3)
                     r = 'old'
                     fetches.append(bb)
+                elif atomic and fn.get('def') == 'entry::ReloadId::update' and len(raw_args) == 2 and isinstance(raw_args[0], tuple) and raw_args[0][0] == 'ref' \
+                        and raw_args[0][1] in ('old', 'new', 'same') and raw_args[1] in ('old', 'new', 'same'):
+                    # ReloadId::update on a local copy of an id (decided by R1): returns offered > copy
+                    x0, x1 = [('old' if x == 'same' else x) for x in (raw_args[1], raw_args[0][1])]
+                    r = sym_cmp('gt', x0, x1, rel if 'same' not in (raw_args[1], raw_args[0][1]) else '=')
                 elif fn.get('def') == 'std::mem::replace' and len(raw_args) == 2 and raw_args[0] == ('ref', 'self') and raw_args[1] in ('old', 'new', 'same'):
                     # mem::replace(self, v): the stored id becomes v, the previous one is returned
                     r, mem = mem, raw_args[1]
@@ -340,7 +345,9 @@ def ret_value(b, p, c, truth):
 def table_atomic_update(R, cfg, b):
     fm = [c for c in b.calls() if c.callee and c.callee.best == 'entry::AtomicReloadId::fetch_max']
     cmps = find_cmp(b)
-    others = [c for c in b.calls() if c not in fm and c not in cmps and not c.exp]
+    others = [c for c in b.calls() if c not in fm and c not in cmps and not c.exp and not (c.callee and c.callee.best == 'entry::ReloadId::update')]
+    if not cmps and [c for c in b.calls() if c.callee and c.callee.best == 'entry::ReloadId::update']:
+        cmps = [c for c in b.calls() if c.callee and c.callee.best == 'entry::ReloadId::update']
     raw = [c for c in b.calls() if c.callee and c.callee.name == 'fetch_max' and 'atomic::Atomic' in c.callee.best and 'usize' in c.callee.best]
     if not fm and not cmps and len(raw) == 1 and len(b.calls()) == 1:
         # the same thing on the raw integers: `new.0 > self.0.fetch_max(new.0, AcqRel)` (ReloadId derives its order from its field)
